@@ -306,10 +306,15 @@ theorem frame_addAF (o : Ops V) (alg : Algo V) (nm : String) :
   unfold addAF
   frame_auto
 
+theorem frame_unaryTemp {T : String → Prop} (o : Ops V) (k : UOp) (inp : String) (m : Nat) :
+    Frame T (fun _ => True) (unaryTemp (σ := ATab V) o k inp m) := by
+  cases k <;> (unfold unaryTemp; frame_auto)
+macro_rules | `(tactic| frame_leaf) => `(tactic| exact frame_unaryTemp _ _ _ _)
+
 theorem frame_unaryVoid (o : Ops V) (k : UOp) (inp out : String) :
     Frame (· = out) (fun _ => True) (unaryVoid (σ := ATab V) o k inp out) := by
   unfold unaryVoid
-  cases k <;> frame_auto
+  frame_auto
 
 theorem frame_binaryVoid (o : Ops V) (k : BOp) (in1 in2 out : String) :
     Frame (· = out) (fun _ => True) (binaryVoid (σ := ATab V) o k in1 in2 out) := by
